@@ -23,6 +23,7 @@ import EinoV.Proofs.C02EagerExact
 import EinoV.Gen.FactsC02
 import EinoV.Expected.C02
 import EinoV.Proofs.C02Workflow
+import EinoV.Proofs.C02Rerun
 import EinoV.Expected.C02Workflow
 import EinoV.Proofs.TransDag
 import EinoV.Proofs.TransMgrInit
@@ -709,6 +710,82 @@ theorem dag_stuck_run_has_nothing_enabled {V} (ops : ValOps V) (r : Runner V) (w
   refine ⟨fun n hen => ?_, run_end_never_waits ops r wf wf2 sched hf x [] [] older h⟩
   have := compTr_at r x _ (run_complete ops r wf wf2 sched hf x) [] [] older h n hen
   simpa [keysOfTr] using this
+
+/-! ### The same compiled runnable called several times (a session)
+
+The run-level theorems above speak about ONE call of `runner.run`.  A compiled Graph / Workflow is
+called many times; the property is stated "per run", so what a node receives in one call must not
+depend on the calls made before.  `Model/C02Rerun.lean` threads the channels a completed call
+leaves behind to the next call, under the source fact `FactsC02.runBuildsFreshChannels`
+(`runner.run` takes its channel manager from `initChannelManager`, which makes every channel with
+the channel builder; the runner struct keeps no channels) and an arbitrary clean-up `recycle`. -/
+section Rerun
+
+theorem rerun_facts_match :
+    FactsC02.runBuildsFreshChannels = Expected.C02.runBuildsFreshChannels := by decide
+
+/-- **runs_are_independent** (Workflows, eager loop): calling the same compiled runner on a
+    sequence of inputs, each under its own completion schedule, yields exactly the outcomes of the
+    independent runs `runEager ops r pick x` — for every runner, every sequence of calls, whatever
+    the previous calls left behind (`idle`) and whatever a clean-up would do (`recycle`).  So every
+    statement about `runEager` (at most once, justified starts, exact inputs, the result is END's
+    input) holds for the k-th call of a session with the k-th input alone. -/
+theorem runs_are_independent {V} (recycle : Chans V → Chans V) (ops : ValOps V) (r : Runner V)
+    (idle : Option (Chans V)) (calls : List (Pick V × V)) :
+    sessionEager FactsC02.runBuildsFreshChannels recycle ops r idle calls
+      = calls.map (fun c => runEager ops r c.1 c.2) :=
+  sessionEager_of_start _ recycle ops r (fun i => by
+    have h : FactsC02.runBuildsFreshChannels = true := by decide
+    rw [h]; exact startChans_fresh recycle r i) idle calls
+
+/-- **dag_runs_are_independent** (all-predecessor Graphs, batch loop): the same for `runS`. -/
+theorem dag_runs_are_independent {V} (recycle : Chans V → Chans V) (ops : ValOps V) (r : Runner V)
+    (idle : Option (Chans V)) (calls : List (Sched V × V)) :
+    sessionS FactsC02.runBuildsFreshChannels recycle ops r idle calls
+      = calls.map (fun c => runS ops r c.1 c.2) :=
+  sessionS_of_start _ recycle ops r (fun i => by
+    have h : FactsC02.runBuildsFreshChannels = true := by decide
+    rw [h]; exact startChans_fresh recycle r i) idle calls
+
+/-- a runner that keeps the channels of completed calls is equally right provided its clean-up
+    restores what the channel builder creates (both loops) -/
+theorem kept_channels_need_a_complete_reset {V} (recycle : Chans V → Chans V) (ops : ValOps V) (r : Runner V)
+    (h : ∀ cm, recycle cm = initChans r) (idle : Option (Chans V)) :
+    (∀ calls : List (Pick V × V), sessionEager false recycle ops r idle calls = calls.map (fun c => runEager ops r c.1 c.2)) ∧
+    (∀ calls : List (Sched V × V), sessionS false recycle ops r idle calls = calls.map (fun c => runS ops r c.1 c.2)) := by
+  have hs : ∀ i, startChans false recycle r i = initChans r := by
+    intro i; cases i <;> simp [startChans, h]
+  exact ⟨fun calls => sessionEager_of_start _ recycle ops r hs idle calls,
+         fun calls => sessionS_of_start _ recycle ops r hs idle calls⟩
+
+/-- START→s; s's branch {d, nd} takes d on odd inputs; d and nd precede the gate g, which reads
+    s (data-only); g's branch {x, nx} takes x when bit 1 of the input is set; x reads d and s
+    over data-only dependencies — its control comes from a branch decided after d has finished;
+    x and nx feed END. -/
+def wStale : WorkflowDef Nat :=
+  { nodes := [("s", fun v => .ok v), ("d", fun v => .ok (v + 10)), ("nd", fun _ => .ok 0), ("g", fun v => .ok v),
+              ("x", fun v => .ok v), ("nx", fun _ => .ok 0)],
+    deps := [WDep.input START "s", WDep.noDirect "s" "d", WDep.dependency "d" "g", WDep.dependency "nd" "g",
+             WDep.noDirect "s" "g", WDep.noDirect "d" "x", WDep.noDirect "s" "x",
+             WDep.input "x" END, WDep.input "nx" END],
+    branches := [("s", { ends := ["d", "nd"], cond := fun v => .ok [if v % 2 == 1 then "d" else "nd"] }),
+                 ("g", { ends := ["x", "nx"], cond := fun v => .ok [if v / 2 % 2 == 1 then "x" else "nx"] })] }
+
+/-- **kept_channels_with_bookkeeping_reset_leak** (non-vacuity of `runs_are_independent`: the
+    hypothesis "every call starts from fresh channels" is what carries it).  Call 1 (input 1): d
+    runs, x is discarded holding d's 11.  Call 2 (input 2): d is skipped, x runs.  Alone, call 2
+    gives x the input 2 and returns 2; in a session whose clean-up restores only the dependency
+    bookkeeping x receives 11 + 2; with the complete clean-up the session is right again. -/
+theorem kept_channels_with_bookkeeping_reset_leak :
+    okv (runEager natOps (compileW natOps wStale) (fun _ => 0) 2) = some 2 ∧
+    (sessionEager false recycleDepsOnly natOps (compileW natOps wStale) none
+        [((fun _ => 0), 1), ((fun _ => 0), 2)]).map okv = [some 0, some 13] ∧
+    (sessionEager false recycleAll natOps (compileW natOps wStale) none
+        [((fun _ => 0), 1), ((fun _ => 0), 2)]).map okv = [some 0, some 2] ∧
+    (sessionEager FactsC02.runBuildsFreshChannels recycleDepsOnly natOps (compileW natOps wStale) none
+        [((fun _ => 0), 1), ((fun _ => 0), 2)]).map okv = [some 0, some 2] := by decide
+
+end Rerun
 
 /-! ### The source itself: compose/dag.go translated (Gen/TransC02.lean) refines the channel model
 
